@@ -32,6 +32,7 @@ impl StateMachine<'_> {
             if let State::HunkHeader(_, _, _, _) = self.state {
                 self.state = State::SubmoduleShort(commit.to_owned());
             } else if let State::SubmoduleShort(minus_commit) = &self.state {
+                self.painter.paint_buffered_minus_and_plus_lines();
                 self.painter.emit()?;
                 writeln!(
                     self.painter.writer,
